@@ -216,7 +216,7 @@ def mutate_text(rng, text):
     lines = [l for l in lines if l]
     if len(lines) < 3:
         return text + "TZID:x\r\n"
-    k = rng.randint(0, 9)
+    k = rng.randint(0, 11)
     protected = lambda l: l.upper().startswith(("RRULE", "DTSTART", "RDATE"))
     if k == 0:
         i = rng.randrange(len(lines)); del lines[i]
@@ -245,6 +245,23 @@ def mutate_text(rng, text):
             lines[i] = lines[i] + rng.choice([" ", "\t", "  "])
     elif k == 8:
         i = rng.randrange(1, len(lines)); lines[i] = " " + lines[i]       # becomes a continuation of the previous line
+    elif k in (10, 11):
+        # several VTIMEZONEs, each of the later ones with its own TZID, without a TZID (mandatory per zone), or with the
+        # TZID only after the components; per-zone state (TZID, component list) must not leak from one zone to the next
+        zone = list(lines)
+        for j in range(rng.randint(1, 2)):
+            variant = rng.randint(0, 3)
+            nz = [l.replace("TZID:Test", "TZID:Second" if j == 0 else "TZID:Third") for l in zone]
+            if variant == 1:
+                nz = [l for l in nz if not l.upper().startswith("TZID")]
+            elif variant == 2:
+                tz_l = [l for l in nz if l.upper().startswith("TZID")]
+                nz = [l for l in nz if not l.upper().startswith("TZID")]
+                nz = nz[:-1] + tz_l + nz[-1:]
+            elif variant == 3:
+                # a zone without components after a complete one
+                nz = [l for l in nz if l.upper().startswith(("BEGIN:VTIMEZONE", "END:VTIMEZONE", "TZID"))]
+            lines = lines + nz
     else:
         sep = rng.choice(["\n", "\r", "\r\n"])
         return sep.join(lines) + sep
@@ -470,6 +487,36 @@ def oracle(ctx):
         if got != want:
             ctx.violation("before the first onset tzical reports %r, the first STANDARD component is %r" % (got, want),
                           {"kind": "before-first", "tzstr": s, "mode": mode}, text)
+    # line folding: a definition folded at ANY position (also right after a space, inside TZID / TZNAME values that
+    # contain spaces) denotes the same zones with the same names as the unfolded text
+    spec = gen_spec(rng)
+    base = vtimezone(spec, tzid="Test/US Eastern", names=("Eastern Standard Time", "Eastern Daylight Time"))
+    try:
+        ref = load(base)
+        ref_names = (list(ref.keys()), [c.tzname for c in ref.get()._comps])
+        lines = base.split("\r\n")
+        budget = ctx.budget(400, 6000)
+        tried = 0
+        for li, line in enumerate(lines):
+            for pos in range(1, len(line)):
+                if tried >= budget:
+                    break
+                if not (line.startswith(("TZID", "TZNAME")) or (li + pos) % 7 == 0):
+                    continue
+                tried += 1
+                folded = "\r\n".join(lines[:li] + [line[:pos], " " + line[pos:]] + lines[li + 1:])
+                ctx.case(("fold", li, pos)); ctx.count("fold_positions")
+                try:
+                    t = load(folded)
+                    got = (list(t.keys()), [c.tzname for c in t.get()._comps])
+                except Exception as ex:
+                    got = "raised " + exc_kind(ex)
+                if got != ref_names:
+                    ctx.violation("folding line %d at column %d changes the definition: %r instead of %r" % (li, pos, got, ref_names),
+                                  {"kind": "fold", "line": li, "col": pos}, folded)
+                    break
+    except Exception as ex:
+        ctx.violation("unfolded reference definition rejected: %s" % exc_kind(ex), {"kind": "fold-ref"}, base)
     # all-DAYLIGHT definition: the first component applies before the first onset
     spec = gen_spec(rng)
     t = vtimezone(spec).replace("STANDARD", "DAYLIGHT")
@@ -515,6 +562,11 @@ def oracle(ctx):
         "unknown-property": "\r\n".join(good).replace("TZNAME:SSS", "X-WHAT:SSS"), "unclosed-component": drop("END:DAYLIGHT"),
         "no-components": "BEGIN:VTIMEZONE\r\nTZID:x\r\nEND:VTIMEZONE\r\n", "empty": "", "bad-offset": "\r\n".join(good).replace("TZOFFSETTO:", "TZOFFSETTO:x", 1),
         "mismatched-end": "\r\n".join(good).replace("END:STANDARD", "END:DAYLIGHT", 1),
+        # every VTIMEZONE needs its own TZID and its own components: nothing carries over from the zone before it
+        "second-zone-missing-TZID": "\r\n".join(good) + "\r\n" + drop("TZID"),
+        "third-zone-missing-TZID": "\r\n".join(good) + "\r\n" + "\r\n".join(good).replace("TZID:Test", "TZID:B") + "\r\n" + drop("TZID"),
+        "second-zone-no-components": "\r\n".join(good) + "\r\nBEGIN:VTIMEZONE\r\nTZID:B\r\nEND:VTIMEZONE\r\n",
+        "first-zone-missing-TZID": drop("TZID") + "\r\n" + "\r\n".join(good),
     }
     for cls, text in malformed.items():
         ctx.case(("malformed", cls)); ctx.count("malformed_" + cls)
